@@ -16,6 +16,7 @@ CONSTANTS
   Weak_IntermediateBaseOffByOne = FALSE
   Weak_PruneDropsLastChanged = FALSE
   Weak_PruneDropsCheckpoint = FALSE
+  Weak_RecoveryDropsParamUpdates = FALSE
   Weak_PruneDropsParamsChanged = FALSE
 INIT Init
 NEXT Next
